@@ -28,7 +28,7 @@ RELIED = ["constant", "event_type", "checkfixed", "variable", "cplx_decay_line",
 
 
 def run(ctx, ss):
-    for r, f in (("C17.1", c17_1), ("C17.2", c17_2), ("C17.3", c17_3), ("C17.4", c17_4), ("C17.5", c17_5)):
+    for r, f in (("C17.1", c17_1), ("C17.2", c17_2), ("C17.3", c17_3), ("C17.4", c17_4), ("C17.5", c17_5), ("C17.5", c17_7), ("C17.8", c17_8)):
         ctx.guard(r, f, ss)
 
 
@@ -169,6 +169,13 @@ def c17_2(ctx, ss):
         conds = [(txt(e), pol) for kind, e, pol in guards.path_conditions(ff.node, s) if kind == "if"]
         if conds and not all(pol and e in src for e, pol in conds):
             ctx.violation("C17.6", k + " :: guard", where(ff, s), f"the switch is set under {conds}")
+    # without the option the coupling convention is polar
+    consts = [s for s in stores if isinstance(s.value, ast.Constant)]
+    mfa = pf.module_facts(ss, ACHAIN)
+    cattr = mfa.classes["AmplitudeChain"].class_attrs.get("cartesian") if "AmplitudeChain" in mfa.classes else None
+    okc = all(s.value.value is False for s in consts) and isinstance(cattr, ast.Constant) and cattr.value is False
+    (ctx.holds if okc else ctx.violation)("C17.6", ckey(ff, None, "flag-default"), where(ff, consts[0] if consts else ff.node),
+                                          "without the option the switch is False (magnitude / phase)" if okc else "without the FastCoherentSum::UseCartesian option the switch is not False")
     ctx.count("unpack_sites", n)
     ctx.floor("C17.2", "single-element unpacks of get_from_parser results", n + 1, 3)
 
@@ -363,3 +370,150 @@ def c17_5(ctx, ss):
     okt = len(lark) == 1 and any(kw.arg == "transformer" and txt(kw.value) == "AmpGenTransformer()" for kw in lark[0].keywords)
     (ctx.holds if okt else ctx.violation)("C17.5", k2 + " :: transformer", where(rf, lark[0] if lark else rf.node),
                                           "the parser is built with AmpGenTransformer()" if okt else "the parser is not built with the AmpGen transformer")
+
+
+# ---- additional clauses found by auto-mutation triage -------------------------------------------------------
+def c17_7(ctx, ss):
+    """read_ampgen frame: every decay line / every event-type name is used, in order, and the mother filter is the first state."""
+    ff, flow = fn(ss, ACHAIN, "AmplitudeChain.read_ampgen")
+    r = returns(ff)
+    if len(r) != 1 or not isinstance(r[0].value, ast.Tuple) or len(r[0].value.elts) != 4 or not all(isinstance(e, ast.Name) for e in r[0].value.elts):
+        raise AnchorMissing("read_ampgen: return is not a tuple of four locals")
+    n_lines, n_pars, n_consts, n_states = (e.id for e in r[0].value.elts)
+
+    def one_def(name):
+        ds = [d for d in flow.defs if d.name == name and d.kind == "assign"]
+        return ds[-1] if ds else None
+    k = ckey(ff, None, "frame2")
+    # states
+    ds = one_def(n_states)
+    oks = False
+    if ds is not None and isinstance(ds.value, ast.ListComp) and len(ds.value.generators) == 1 and not ds.value.generators[0].ifs:
+        g = ds.value.generators[0]
+        src = g.iter
+        if isinstance(src, ast.Name) and isinstance(g.target, ast.Name) and txt(ds.value.elt) == f"particle_from_string_name({g.target.id})":
+            de = [d for d in flow.defs if d.name == src.id]
+            oks = len(de) == 1 and de[0].path == (0,) and isinstance(de[0].value, ast.Call) and txt(de[0].value.func) == "get_from_parser" \
+                and isinstance(de[0].value.args[1], ast.Constant) and de[0].value.args[1].value == "event_type" \
+                and isinstance(de[0].stmt.targets[0], (ast.Tuple, ast.List)) and len(de[0].stmt.targets[0].elts) == 1
+    (ctx.holds if oks else ctx.violation)("C17.5", k + " :: states-all", where(ff, ds.stmt if ds is not None else ff.node),
+                                          "states = the particle of EVERY name of the (single) event-type statement, in order" if oks
+                                          else "the event-type particles are not all converted, in order, from the single event_type statement")
+    # lines
+    dl = one_def(n_lines)
+    okl = False
+    why = "not a two-generator comprehension"
+    if dl is not None and isinstance(dl.value, ast.ListComp) and len(dl.value.generators) == 2:
+        g0, g1 = dl.value.generators
+        why = ""
+        if not (isinstance(g0.iter, ast.Name) and isinstance(g0.target, ast.Name)):
+            why = f"the source of the decay lines is `{txt(g0.iter)[:60]}` (sliced / filtered)"
+        else:
+            la = one_def(g0.iter.id)
+            lt = g0.target.id
+            if not (la is not None and isinstance(la.value, ast.ListComp) and len(la.value.generators) == 1 and not la.value.generators[0].ifs
+                    and isinstance(la.value.generators[0].iter, ast.Name) and txt(la.value.elt) == f"cls.from_matched_line({txt(la.value.generators[0].target)})"):
+                why = "the amplitude list is not cls.from_matched_line of EVERY complex decay line"
+            else:
+                src = one_def(la.value.generators[0].iter.id)
+                if not (src is not None and isinstance(src.value, ast.Call) and txt(src.value.func) == "get_from_parser" and txt(src.value.args[1]) == "'cplx_decay_line'"):
+                    why = "the decay lines do not come from get_from_parser(parsed, 'cplx_decay_line')"
+            flt = [txt(i) for i in g0.ifs]
+            if not why and flt not in ([f"{lt}.particle == {n_states}[0]"], [f"{n_states}[0] == {lt}.particle"]):
+                why = f"the mother filter is {flt}, expected `{lt}.particle == {n_states}[0]`"
+            if not why and not (txt(g1.iter) == f"{lt}.expand_lines({g0.iter.id})" and not g1.ifs and txt(dl.value.elt) == txt(g1.target)):
+                why = f"the expansion step is `{txt(g1.iter)[:60]}`"
+        okl = not why
+    (ctx.holds if okl else ctx.violation)("C17.5", k + " :: lines-all", where(ff, dl.stmt if dl is not None else ff.node),
+                                          "every complex decay line becomes an amplitude; those of the event-type mother are expanded against all lines, in file order" if okl
+                                          else f"amplitude list: {why}")
+    # the text that is parsed is the argument / the file content
+    pc = [c for c in pf.calls_in(ff.node) if isinstance(c.func, ast.Attribute) and c.func.attr == "parse" and c.args]
+    okp = len(pc) == 1 and sorted(txt(x) for x in phi_alts(flow.expand(pc[0].args[0]))) in (["__enter__(open(filename, encoding='utf_8')).read()", "text"],)
+    (ctx.holds if okp else ctx.violation)("C17.5", k + " :: input", where(ff, pc[0] if pc else ff.node),
+                                          "the parsed text is the `text` argument or the whole file content" if okp else "what is parsed is not the given text / the whole file")
+    # expand_lines: the separately given lines win when there are any
+    ef_, eflow = fn(ss, ACHAIN, "AmplitudeChain.expand_lines")
+    comps = [n for n in pf.walk_no_nested(ef_.node) if isinstance(n, ast.ListComp) and len(n.generators) == 2]
+    if comps:
+        nm = [d.name for d in eflow.defs if d.kind == "assign" and d.value is comps[0]]
+        rr = [x for x in returns(ef_) if nm and txt(x.value) == nm[0]]
+        conds = [(txt(e), pol) for x in rr for kind, e, pol in guards.path_conditions(ef_.node, x) if kind == "if"]
+        okn = len(rr) == 1 and (nm[0], True) in conds
+        (ctx.holds if okn else ctx.violation)("C17.5", ckey(ef_, None, "alternatives-when-present"), where(ef_, rr[0] if rr else ef_.node),
+                                              "the separately given lines replace a leaf exactly when there is at least one" if okn
+                                              else f"the substitution list is returned under {conds}")
+
+
+def c17_8(ctx, ss):
+    """The transformer's `decay`, `event_type`, `cplx_decay_line` callbacks and from_matched_line keep what is written."""
+    gf = grammar_facts(ss, G)
+    df, dflow = fn(ss, ATRANS, "AmpGenTransformer.decay")
+    p = df.params[1]
+    k = ckey(df, None, "decay-callback")
+    # name
+    nm = [s for s in pf.iter_stmts(df.node.body) if isinstance(s, ast.Assign) and isinstance(s.targets[0], ast.Subscript) and txt(s.targets[0].slice) == "'name'"]
+    okn = len(nm) == 1 and dflow.text(nm[0].value) == f"str({p}[0].children[0])"
+    (ctx.holds if okn else ctx.violation)("C17.8", k + " :: name", where(df, nm[0] if nm else df.node), "name = the particle label of the first child" if okn else "the line's name is not the label of its first child")
+    loops = [n for n in pf.walk_no_nested(df.node) if isinstance(n, ast.For)]
+    outer = [l for l in loops if not enclosing(df, l, (ast.For,))]
+    okl = len(outer) == 1 and txt(outer[0].iter) == f"{p}[1:]"
+    (ctx.holds if okl else ctx.violation)("C17.8", k + " :: children", where(df, outer[0] if outer else df.node),
+                                          "every child after the particle is inspected" if okl else f"the callback inspects `{txt(outer[0].iter) if outer else None}`, not every child after the particle")
+    want = {"subdecay": "daughters", "spinfactor": "spinfactor", "lineshape": "lineshape"}
+    seen = {}
+    for st in pf.iter_stmts(df.node.body):
+        tg = None
+        if isinstance(st, ast.AugAssign) and isinstance(st.target, ast.Subscript):
+            tg, val = txt(st.target.slice).strip("'"), st.value
+        elif isinstance(st, ast.Assign) and isinstance(st.targets[0], (ast.Tuple,)) and len(st.targets[0].elts) == 1 and isinstance(st.targets[0].elts[0], ast.Subscript):
+            tg, val = txt(st.targets[0].elts[0].slice).strip("'"), st.value
+        if tg in want.values():
+            conds = [(txt(e), pol) for kind, e, pol in guards.path_conditions(df.node, st) if kind == "if"]
+            lps = enclosing(df, st, (ast.For,))
+            var = lps[0].target.id if lps and isinstance(lps[0].target, ast.Name) else "?"
+            tag = [t_ for t_, key in want.items() if key == tg][0]
+            ok = (f"{var}.data == '{tag}'", True) in conds and all(pol or "==" in c for c, pol in conds) and txt(val) == f"{var}.children" \
+                and not any(isinstance(x, (ast.Break, ast.Continue)) for x in ast.walk(lps[0]))
+            # no slicing of the inner loop
+            if len(lps) == 2:
+                ok = ok and txt(lps[0].iter) == f"{lps[1].target.id}.children" and (f"{lps[1].target.id}.data == 'decaytype'", True) in conds
+            seen[tg] = ok
+    for tag, key in want.items():
+        okk = seen.get(key) is True
+        (ctx.holds if okk else ctx.violation)("C17.8", k + f" :: {key}", where(df, df.node),
+                                              f"a `{tag}` child becomes the line's {key}" if okk else f"the {key} of a line is not taken from its `{tag}` child (for every such child)")
+    init = [s for s in pf.iter_stmts(df.node.body) if isinstance(s, ast.Assign) and isinstance(s.targets[0], ast.Subscript) and txt(s.targets[0].slice) == "'daughters'"]
+    oki = len(init) == 1 and txt(init[0].value) == "[]" and not enclosing(df, init[0], (ast.For,))
+    (ctx.holds if oki else ctx.violation)("C17.8", k + " :: daughters-init", where(df, df.node), "daughters start empty for every line" if oki else "daughters are not initialised empty per line")
+    # event_type
+    ef_, eflow = fn(ss, ATRANS, "AmpGenTransformer.event_type")
+    r = returns(ef_)
+    oke = len(r) == 1 and txt(r[0].value) == f"Tree('event_type', [str(p.children[0]) for p in {ef_.params[1]}])"
+    (ctx.holds if oke else ctx.violation)("C17.8", ckey(ef_, None, "event_type"), where(ef_, ef_.node),
+                                          "event_type = the label of every particle child, in order" if oke else f"event_type returns `{txt(r[0].value)[:80] if r else None}`")
+    # cplx_decay_line: errors from the third columns; whole dictionary returned
+    cf_, cflow = fn(ss, ATRANS, "AmpGenTransformer.cplx_decay_line")
+    st = [x for x in pf.iter_stmts(cf_.node.body) if isinstance(x, ast.Assign) and isinstance(x.targets[0], ast.Subscript) and txt(x.targets[0].slice) == "'err'"]
+    p = cf_.params[1]
+    okerr = len(st) == 1 and cflow.text(st[0].value) == f"complex(float({p}[1].children[2]), float({p}[2].children[2]))"
+    (ctx.holds if okerr else ctx.violation)("C17.8", ckey(cf_, None, "err"), where(cf_, cf_.node),
+                                            "err = complex(error of the first triple, error of the second triple)" if okerr else "the coupling error is not assembled from the two error columns")
+    r = returns(cf_)
+    okr = len(r) == 1 and cflow.text(r[0].value) == f"Tree('cplx_decay_line', {p}[0])"
+    (ctx.holds if okr else ctx.violation)("C17.8", ckey(cf_, None, "result"), where(cf_, cf_.node), "the callback returns the line's dictionary" if okr else "the callback does not return the line's dictionary")
+    fx = [x for x in pf.iter_stmts(cf_.node.body) if isinstance(x, ast.Assign) and isinstance(x.targets[0], ast.Subscript) and txt(x.targets[0].slice) == "'fix'"]
+    okfx = len(fx) == 1 and {n_.id for n_ in ast.walk(cflow.expand(fx[0].value)) if isinstance(n_, ast.Name)} == {p} and f"{p}[1].children[0]" in cflow.text(fx[0].value) \
+        and f"{p}[2].children[0]" in cflow.text(fx[0].value)
+    (ctx.holds if okfx else ctx.violation)("C17.8", ckey(cf_, None, "fix"), where(cf_, cf_.node),
+                                           "the line's fix flag is computed from the two fix columns" if okfx else "the line's fix flag is not computed from the two fix columns")
+    # from_matched_line: particle lookup by name, daughters converted recursively (all of them)
+    mf_, mflow = fn(ss, ACHAIN, "AmplitudeChain.from_matched_line")
+    sp = [x for x in pf.iter_stmts(mf_.node.body) if isinstance(x, ast.Assign) and txt(x.targets[0]) in ("mat['particle']", 'mat["particle"]')]
+    okp = len(sp) == 1 and txt(sp[0].value) in ("particle_from_string_name(mat['name'])",)
+    (ctx.holds if okp else ctx.violation)("C17.8", ckey(mf_, None, "particle"), where(mf_, mf_.node), "particle = particle_from_string_name(name)" if okp else "the particle is not looked up from the line's name")
+    sd = [x for x in pf.iter_stmts(mf_.node.body) if isinstance(x, ast.Assign) and txt(x.targets[0]) in ("mat['daughters']",)]
+    okd = len(sd) == 1 and txt(sd[0].value) == "[cls.from_matched_line(d) for d in mat['daughters']]" and \
+        [(txt(e), pol) for kind, e, pol in guards.path_conditions(mf_.node, sd[0]) if kind == "if"] in ([("mat['daughters']", True)], [])
+    (ctx.holds if okd else ctx.violation)("C17.8", ckey(mf_, None, "daughters"), where(mf_, mf_.node),
+                                          "every daughter dictionary is converted recursively" if okd else "not every daughter is converted recursively")
